@@ -23,6 +23,39 @@ def generate(rng, tier):
         yield {"g": (G.gen_cfg(rng, max_vars=5, max_prods=11) if tier == "thorough" and rng.random() < 0.25 else G.gen_cfg(rng)), "wseed": rng.randrange(1 << 30)}
 
 
+def cyk_table_tie(cfg, words, drv, res):
+    """hidden state of contains(): every cell of the CYK table the implementation fills for a word (the heads
+    of its nodes) against the cells of the Lean recogniser run on the implementation's own normal form"""
+    from pyformlang.cfg.cyk_table import CYKTable
+    st, n = outcome(lambda: G.extract(cfg.to_normal_form()), limit=8.0)
+    if st != "ok":
+        return
+    ws = [w for w in words if 1 <= len(w) <= 4 and all(isinstance(x, str) for x in w)][:12]
+    if not ws:
+        return
+    model = drv.call("cfg.cykTable", G=n, words=ws)
+    for w, mt in zip(ws, model):
+        st, tb = outcome(lambda w=w: CYKTable(cfg, [G.sym(["t", x]) for x in w])._cyk_table, limit=3.0)  # pylint: disable=protected-access
+        if st != "ok":
+            res.tag("cyk_table_unreadable")
+            return
+        impl = {(j - i, i): sorted(getattr(x.value, "value", x.value) for x in cell) for (i, j), cell in tb.items()}
+        want = {(ln, i): sorted(vs) for ln, i, vs in mt}
+        res.corr += 1
+        if len(tb) == 1 and impl.get((len(w), 0)) == []:
+            # a letter no production writes: the implementation fills nothing, the answer is the empty top cell
+            if want.get((len(w), 0), []) != [] and all(any(b == [["t", x]] for _, b in n["prods"]) for x in w):
+                res.corr_break("contains", "CYK table abandoned although every letter is written by a production",
+                               detail={"word": w})
+            continue
+        if impl != want:
+            res.corr_break("contains", "cells of the CYK table differ from the model",
+                           detail={"word": w, "impl": {str(k): v for k, v in impl.items()},
+                                   "model": {str(k): v for k, v in want.items()}})
+            return
+    res.tag("cyk_table_tie")
+
+
 def run_case(case, drv):
     import random
     res = CaseResult()
@@ -80,6 +113,7 @@ def run_case(case, drv):
         j = words.index(w)
         if oracle[j] is not None and got != ("ok", oracle[j]):
             res.violation("__contains__", "`w in cfg` differs from derivability", detail={"word": w, "impl": got})
+    cyk_table_tie(cfg, words, drv, res)
     got = outcome(cfg.generate_epsilon)
     res.evals += 1
     if oracle[0] is not None and got != ("ok", oracle[0]):
